@@ -6,10 +6,12 @@ from progen import *
 ARGVS = [[], ["a"], ["x", "yy"]]
 
 
+_rx_addr = re.compile(r"0x[0-9a-f]{9,16}\b")
 def split_units(out):
     """Split program stdout into {unit number: text}."""
     secs, cur = {0: []}, 0
     for line in out.decode(errors="replace").split("\n"):
+        line = _rx_addr.sub("0xADDR", line)    # heap addresses (the heap base is randomised since Go 1.26) are not program semantics
         m = re.match(r"== unit (\d+) ", line)
         if m:
             cur = int(m.group(1))
@@ -50,8 +52,14 @@ def build_pack(g, units, gflags, extra_env=None, header=PTR_HELPER, argvs=ARGVS,
             if a.returncode != b.returncode:
                 r.bad_units[-1] = "exit status %d vs %d with args %s" % (a.returncode, b.returncode, av)
             sa, sb = split_units(a.stdout), split_units(b.stdout)
+            sa2 = None
             for k in sorted(set(sa) | set(sb)):
                 if sa.get(k) != sb.get(k) and k not in r.bad_units:
+                    # a unit whose output differs between two runs of the plain binary itself is nondeterministic: not comparable
+                    if sa2 is None: sa2 = split_units(exec_bin(d + "/plain", av).stdout)
+                    if sa2.get(k) != sa.get(k):
+                        r.nondeterministic = getattr(r, "nondeterministic", 0) + 1
+                        continue
                     r.bad_units[k] = "args %s: plain build prints\n%s\ngarbled build prints\n%s" % (av, short(sa.get(k, "<missing>"), 800), short(sb.get(k, "<missing>"), 800))
     if not keep:
         shutil.rmtree(d, ignore_errors=True)
